@@ -237,24 +237,41 @@ theorem pointer_cycle_unbounded_without_clause (cfg : Cfg) (ht : cfg.trackPtrLik
 
 example : (1 : Nat) ≤ ({ srcCfg with trackPtrLike := false } : Cfg).after := by decide
 
-/-- With the `AtMaxDepth` guard of the `[]`/`{}` shortcut (repo commit c2b1a73), no container is written
-at `Depth() = max+1`, empty or not: the answer is errMaxDepth (or the cycle error). -/
-theorem container_at_limit (cfg : Cfg) (hg : cfg.guardEmpty = true) (g : Heap) (fuel : Nat) (seen : List Nat)
-    (n : Nat) (nd : Node) (hn : g[n]? = some nd) (hk : nd.kind.deepens = true) :
+/-- With the `AtMaxDepth` guard on every shortcut that skips WriteToken (repo commit c2b1a73 for empty slices
+and maps; true of the source configuration, where structs and arrays have no shortcut at all), no container is
+written at `Depth() = max+1`, empty or not: the answer is errMaxDepth (or the cycle error). -/
+theorem container_at_limit (cfg : Cfg) (hg : ∀ k, cfg.shortcut k = true → cfg.guarded k = true) (g : Heap) (fuel : Nat)
+    (seen : List Nat) (n : Nat) (nd : Node) (hn : g[n]? = some nd) (hk : nd.kind.deepens = true) :
     marshal cfg g (fuel + 1) (cfg.max + 1) seen n = .maxDepth ∨ marshal cfg g (fuel + 1) (cfg.max + 1) seen n = .cycle := by
-  rw [container_at_limit_refused cfg g hg fuel seen n nd hn hk]
+  rw [container_at_limit_refused cfg g fuel seen n nd hn hk (hg nd.kind)]
   split <;> simp
 
-/-- The guard is necessary: WITHOUT it (finding D5/D11) an empty slice or map at `Depth() = max+1` is written. -/
-theorem empty_container_accepted_without_guard (cfg : Cfg) (hg : cfg.guardEmpty = false) (g : Heap) (fuel : Nat)
-    (n : Nat) (nd : Node) (hn : g[n]? = some nd) (hk : nd.kind = .slice ∨ nd.kind = .map) (he : nd.succ = []) :
+/-- the hypothesis holds of the source configuration -/
+example : ∀ k, srcCfg.shortcut k = true → srcCfg.guarded k = true := fun _ _ => rfl
+
+/-- The guard is necessary on EVERY such shortcut: one that lacks it writes an empty container at
+`Depth() = max+1` — empty slices/maps before c2b1a73 (finding D5/D11), or a fast path for member-less structs
+that forgets the guard. -/
+theorem empty_container_accepted_without_guard (cfg : Cfg) (g : Heap) (fuel : Nat)
+    (n : Nat) (nd : Node) (hn : g[n]? = some nd) (hk : nd.kind.deepens = true)
+    (hsc : cfg.shortcut nd.kind = true) (hg : cfg.guarded nd.kind = false) (he : nd.succ = []) :
     marshal cfg g (fuel + 1) (cfg.max + 1) [] n = .ok :=
-  old_shortcut_accepts cfg g hg fuel [] n nd hn hk he (by simp)
+  unguarded_shortcut_accepts cfg g fuel [] n nd hn hk hsc hg he (by simp)
+
+/-- a configuration with an UNGUARDED `{}` shortcut for member-less structs (not the source) -/
+def structShortcutCfg : Cfg where
+  max := 2
+  after := 1000
+  shortcut := fun k => k == Kind.slice || k == Kind.map || k == Kind.struct
+  guarded := fun k => k != Kind.struct
 
 /-- at max = 2: three nested slices with an empty innermost one are refused now, like the text `[[[]]]`
-on the value path; the old shortcut wrote them.  (Illustrations, not theorems.) -/
+on the value path; the old shortcut wrote them; so does an unguarded shortcut for a member-less struct
+innermost.  (Illustrations, not theorems.) -/
 example : marshal { max := 2, after := 1000 } [⟨.slice, [1]⟩, ⟨.slice, [2]⟩, ⟨.slice, []⟩] 10 1 [] 0 = .maxDepth := by decide
-example : marshal { max := 2, after := 1000, guardEmpty := false } [⟨.slice, [1]⟩, ⟨.slice, [2]⟩, ⟨.slice, []⟩] 10 1 [] 0 = .ok := by decide
+example : marshal { max := 2, after := 1000, guarded := (fun _ => false) } [⟨.slice, [1]⟩, ⟨.slice, [2]⟩, ⟨.slice, []⟩] 10 1 [] 0 = .ok := by decide
+example : marshal { max := 2, after := 1000 } [⟨.slice, [1]⟩, ⟨.slice, [2]⟩, ⟨.struct, []⟩] 10 1 [] 0 = .maxDepth := by decide
+example : marshal structShortcutCfg [⟨.slice, [1]⟩, ⟨.slice, [2]⟩, ⟨.struct, []⟩] 10 1 [] 0 = .ok := by decide
 example : nestDepthOk 2 1 (nestEmpty [false, false] false) = false := by decide
 
 end JsonV.Props.C20
